@@ -9,7 +9,7 @@
     valid + size column = number of leaves below + heights never decrease: what the property demands of each
     dendrogram attribute. *)
 From Coq Require Import Permutation QArith.
-From SKN Require Import Base.Util Model.Dendrogram Model.Cuts Model.Hierarchy Model.Paris Proofs.DendroBase Proofs.HierarchyBase Proofs.HierarchyProofs Proofs.GetDendrogramProofs Proofs.TreeBuildProofs Proofs.SplitProofs Proofs.ParisProofs Proofs.ParisReducible Proofs.ParisWitness Proofs.C07Compose Gen.ParisSrc.
+From SKN Require Import Base.Util Model.Dendrogram Model.Cuts Model.Hierarchy Model.Paris Proofs.DendroBase Proofs.HierarchyBase Proofs.HierarchyProofs Proofs.GetDendrogramProofs Proofs.TreeBuildProofs Proofs.SplitProofs Proofs.ParisProofs Proofs.ParisReducible Proofs.ParisTotal Proofs.ParisWitness Proofs.C07Compose Gen.ParisSrc.
 Close Scope Q_scope.
 
 (** * 1. reorder_dendrogram *)
@@ -148,6 +148,24 @@ Theorem paris_exact_valid (hinf : Q) (n : nat) (G : entries) (wout win : list Q)
   exists D', reorder_dendrogram D = Ok D' /\ good_dendrogram n D' /\ Permutation (merge_view n D) (merge_view n D').
 Proof. exact (C07Compose.paris_exact_valid hinf n G wout win D m t). Qed.
 Print Assumptions paris_exact_valid.
+
+(** Totality: for every symmetric graph with positive edge weights and positive node weights (n >= 1) the exact model
+    ends normally within its fuel of 3n + 2 steps — never KeyError, never out of fuel (the chain never revisits a
+    cluster: no-cycle argument with the smallest-index tie rule) — ... *)
+Theorem paris_total (hinf : Q) (n : nat) (G : entries) (wout win : list Q) :
+  1 <= n -> graph_ok n G -> weights_ok n wout -> weights_ok n win ->
+  exists D m t, paris_core exact false hinf n G wout win = Some (Ok (D, m, t)).
+Proof. exact (ParisTotal.paris_total hinf n G wout win). Qed.
+Print Assumptions paris_total.
+
+(** ... its rows are a valid dendrogram, and with reorder = True the output is a good dendrogram over the same merges. *)
+Theorem paris_exact_total_valid (hinf : Q) (n : nat) (G : entries) (wout win : list Q) :
+  1 <= n -> graph_ok n G -> weights_ok n wout -> weights_ok n win ->
+  exists D m t, paris_core exact false hinf n G wout win = Some (Ok (D, m, t)) /\ valid n D = true /\
+    ((forall r, In r D -> (r_height r <= hinf)%Q) ->
+     exists D', reorder_dendrogram D = Ok D' /\ good_dendrogram n D' /\ Permutation (merge_view n D) (merge_view n D')).
+Proof. exact (C07Compose.paris_exact_total_valid hinf n G wout win). Qed.
+Print Assumptions paris_exact_total_valid.
 
 (** Defect D25: with the roundings of the compiled code (similarities in C floats) the hypothesis of [reorder_valid]
     can fail.  On the 6-node graph [d25_graph] the merges (4,3) and ({3,4},5) have the same height 9/26 in exact
